@@ -85,11 +85,13 @@ class UciOption
     OptionType get_type() const;
 
   public:
-    OptionType _type;
+    // every constructor leaves the members of the other option kinds untouched,
+    // and options are copied into the option map: give them defined values
+    OptionType _type = kBUTTON;
 
-    bool _check;
-    int _spin;
-    int _spin_min, _spin_max;
+    bool _check = false;
+    int _spin = 0;
+    int _spin_min = 0, _spin_max = 0;
     std::vector<std::string> _combo_options;
     std::string _string;  // used both in combo and string
 
